@@ -85,19 +85,26 @@ def lutFind (t : String) : List (String × Key) → Option Key
   | [] => none
   | (t', k) :: r => if t' = t then some k else lutFind t r
 
-def capVals (k : Key) (c : Caps) : List Val :=
-  if k = .RESOURCE_CPU then [.i c.core] else if k = .RESOURCE_RAM then [.i c.ram] else if k = .RESOURCE_DISK then [.i c.disk] else []
+def typeStep (a : Attrs) (n : NodeS) : Attrs :=
+  if n.ntype = switchNodeType then upd a .RESOURCE_TYPE (fun _ => [.s switchType]) else a
 
-/-- `_collect_attributes_from_node_sliver` -/
-def nodeStep (a : Attrs) (n : NodeS) : Attrs :=
-  let a := if n.ntype = switchNodeType then upd a .RESOURCE_TYPE (fun _ => [.s switchType]) else a
-  let a := match n.caps with
-    | some c => upd (upd (upd a .RESOURCE_CPU (· ++ [.i c.core])) .RESOURCE_RAM (· ++ [.i c.ram])) .RESOURCE_DISK (· ++ [.i c.disk])
-    | none => a
-  let a := if n.site ≠ "" then addIfAbsent a .RESOURCE_SITE (.s n.site) else a
+def capsStep (a : Attrs) (n : NodeS) : Attrs :=
+  match n.caps with
+  | some c => upd (upd (upd a .RESOURCE_CPU (· ++ [.i c.core])) .RESOURCE_RAM (· ++ [.i c.ram])) .RESOURCE_DISK (· ++ [.i c.disk])
+  | none => a
+
+/-- `if sliver.site: if sliver.site not in d[RESOURCE_SITE]: d[RESOURCE_SITE].append(sliver.site)` (nodes and services) -/
+def siteStep (a : Attrs) (site : String) : Attrs :=
+  if site ≠ "" then addIfAbsent a .RESOURCE_SITE (.s site) else a
+
+def compsStep (a : Attrs) (n : NodeS) : Attrs :=
   match n.comps with
   | some cs => cs.foldl (fun a c => upd a .RESOURCE_COMPONENT (· ++ [.s c])) a
   | none => a
+
+/-- `_collect_attributes_from_node_sliver`, statement by statement -/
+def nodeStep (a : Attrs) (n : NodeS) : Attrs :=
+  compsStep (siteStep (capsStep (typeStep a n) n) n.site) n
 
 def effSite (s : SvcS) : String := if s.site = "" then unknownSite else s.site
 
@@ -107,22 +114,23 @@ def exempt (inPorts : List (Option String)) (s : SvcS) : Prop := s.stype = mirro
 instance (inPorts : List (Option String)) (s : SvcS) : Decidable (exempt inPorts s) := by
   unfold exempt; exact inferInstance
 
-/-- `_collect_attributes_from_ns_sliver` (repaired) -/
-def svcStep (inPorts : List (Option String)) (a : Attrs) (s : SvcS) : Attrs :=
-  let a := match s.bw with
-    | some b => upd a .RESOURCE_BW (· ++ [.i b])
-    | none => a
-  let a := if s.site ≠ "" then addIfAbsent a .RESOURCE_SITE (.s s.site) else a
+def bwStep (a : Attrs) (s : SvcS) : Attrs :=
+  match s.bw with
+  | some b => upd a .RESOURCE_BW (· ++ [.i b])
+  | none => a
+
+/-- the `if sliver.resource_type in {...}` block (repaired: the exemption returns before the site is listed) -/
+def listStep (inPorts : List (Option String)) (a : Attrs) (s : SvcS) : Attrs :=
   match lutFind s.stype nstypeLut with
   | none => a
   | some k => if exempt inPorts s then a else addIfAbsent a k (.s (effSite s))
 
-/-- `_collect_attributes_from_ns_sliver` before the repair: append-if-absent, then `pop()` -/
-def svcStepLegacy (inPorts : List (Option String)) (a : Attrs) (s : SvcS) : Attrs :=
-  let a := match s.bw with
-    | some b => upd a .RESOURCE_BW (· ++ [.i b])
-    | none => a
-  let a := if s.site ≠ "" then addIfAbsent a .RESOURCE_SITE (.s s.site) else a
+/-- `_collect_attributes_from_ns_sliver` (repaired) -/
+def svcStep (inPorts : List (Option String)) (a : Attrs) (s : SvcS) : Attrs :=
+  listStep inPorts (siteStep (bwStep a s) s.site) s
+
+/-- the same block before the repair: append-if-absent, then `pop()`; the key is removed when the list is empty -/
+def listStepLegacy (inPorts : List (Option String)) (a : Attrs) (s : SvcS) : Attrs :=
   match lutFind s.stype nstypeLut with
   | none => a
   | some k =>
@@ -131,6 +139,9 @@ def svcStepLegacy (inPorts : List (Option String)) (a : Attrs) (s : SvcS) : Attr
       let a := upd a k List.dropLast
       if (get a k).length = 0 then del a k else a
     else a
+
+def svcStepLegacy (inPorts : List (Option String)) (a : Attrs) (s : SvcS) : Attrs :=
+  listStepLegacy inPorts (siteStep (bwStep a s) s.site) s
 
 def inPorts (ifs : List Iface) : List (Option String) := ifs.filterMap id
 
@@ -202,29 +213,35 @@ def vmType : String := "VM"
 def swType : String := "Switch"
 def facType : String := "Facility"
 
-/-- `LogCollector._collect_attributes_from_node_sliver` -/
-def logNode (l : Log) (n : NodeS) : Log :=
-  let l :=
-    if n.ntype = vmType then
-      let l := { l with vm := l.vm + 1 }
-      let cap := match n.alloc with
-        | some c => some c
-        | none => n.caps
-      match cap with
-      | some c => { l with cores := l.cores + c.core, nodes := l.nodes ++ [c] }
-      | none => l
-    else if n.ntype = swType then { l with p4 := l.p4 + 1 }
-    else if n.ntype = facType then { l with facs := addSet l.facs n.name }
-    else l
-  let l := if n.site ≠ "" then { l with sites := addSet l.sites n.site } else l
+/-- the `if / elif / elif` on the node type -/
+def logKind (l : Log) (n : NodeS) : Log :=
+  if n.ntype = vmType then
+    let l := { l with vm := l.vm + 1 }
+    let cap := match n.alloc with
+      | some c => some c
+      | none => n.caps
+    match cap with
+    | some c => { l with cores := l.cores + c.core, nodes := l.nodes ++ [c] }
+    | none => l
+  else if n.ntype = swType then { l with p4 := l.p4 + 1 }
+  else if n.ntype = facType then { l with facs := addSet l.facs n.name }
+  else l
+
+/-- `if sliver.site: sites.add(sliver.site)` (nodes and services) -/
+def logSite (l : Log) (site : String) : Log :=
+  if site ≠ "" then { l with sites := addSet l.sites site } else l
+
+def logComps (l : Log) (n : NodeS) : Log :=
   match n.comps with
   | some cs => { l with comps := cs.foldl bump l.comps }
   | none => l
 
+/-- `LogCollector._collect_attributes_from_node_sliver`, statement by statement -/
+def logNode (l : Log) (n : NodeS) : Log := logComps (logSite (logKind l n) n.site) n
+
 /-- `LogCollector._collect_attributes_from_ns_sliver` -/
 def logSvc (l : Log) (s : SvcS) : Log :=
-  let l := { l with svcs := l.svcs ++ [(s.stype, s.bw.getD 0)] }
-  if s.site ≠ "" then { l with sites := addSet l.sites s.site } else l
+  logSite { l with svcs := l.svcs ++ [(s.stype, s.bw.getD 0)] } s.site
 
 def logFac (l : Log) (f : String) : Log := { l with facs := addSet l.facs f }
 
